@@ -13,6 +13,13 @@ type ModelFn func(m *Machine, f *Frame, cc *ssa.CallCommon, args []Val) Val
 var models = map[string]ModelFn{}
 var invokeModels = map[string]ModelFn{}
 
+// dependency functions whose real body is inlined instead of being modelled
+var inlinedDeps = map[string]bool{
+	"github.com/cosmos/cosmos-sdk/types/query.Paginate":                true,
+	"github.com/cosmos/cosmos-sdk/types/query.getIterator":             true,
+	"github.com/cosmos/cosmos-sdk/types/query.initPageRequestDefaults": true,
+}
+
 func isModuleFn(fn *ssa.Function) bool {
 	return fn.Pkg != nil && strings.HasPrefix(fn.Pkg.Pkg.Path(), modPath)
 }
@@ -163,6 +170,17 @@ func (E *Engine) callFn(m *Machine, f *Frame, x *ssa.Call, fn *ssa.Function, bin
 		if len(m.Frames) > 40 {
 			panic(unsupported("inlining depth exceeded at " + full))
 		}
+		nf := &Frame{Fn: fn, Env: map[ssa.Value]Val{}, Block: fn.Blocks[0], Call: x, Bind: bind, Loops: map[int]*LoopCtx{}}
+		for i, p := range fn.Params {
+			nf.Env[p] = args[i]
+		}
+		nf.Key = FuncName(fn)
+		m.Frames = append(m.Frames, nf)
+		return false
+	}
+	if inlinedDeps[full] && fn.Blocks != nil {
+		// the dependency's own source (as loaded from the module cache that the build links) is executed like module code
+		E.Assume("A-SDK-INLINE", "the bodies of cosmos-sdk types/query.Paginate, getIterator and initPageRequestDefaults are executed from the dependency source in the module cache (the version go.mod pins), under the same store/iterator models as module code")
 		nf := &Frame{Fn: fn, Env: map[ssa.Value]Val{}, Block: fn.Blocks[0], Call: x, Bind: bind, Loops: map[int]*LoopCtx{}}
 		for i, p := range fn.Params {
 			nf.Env[p] = args[i]
